@@ -565,6 +565,19 @@ func dbTermOf(v Val, f *Frame, pos ast.Node) Term {
 	if sc, ok := v.(Sc); ok && sc.T.Sort == "Iface" {
 		return sc.T
 	}
+	if p, ok := v.(PtrV); ok {
+		// a concrete database object behind a pointer (*pebble.Database): identified by its reference
+		f.in.D.declareSort("Iface")
+		f.in.D.declareFun("box_Ref", []string{SRef}, "Iface")
+		return App("box_Ref", "Iface", f.in.refOf(p))
+	}
+	if sc, ok := v.(Sc); ok && strings.HasPrefix(sc.T.Sort, "O_") {
+		// a concrete database type declared opaque (internal/pebble.Database): boxed like an interface value
+		f.in.D.declareSort("Iface")
+		fn := "box_" + sanitize(sc.T.Sort)
+		f.in.D.declareFun(fn, []string{sc.T.Sort}, "Iface")
+		return App(fn, "Iface", sc.T)
+	}
 	f.in.unsupported(pos.Pos(), "database receiver is %T (expected an interface value)", v)
 	return Term{}
 }
@@ -683,6 +696,9 @@ func init() {
 		st.store[c] = BatchV{DB: f.in.dbCell(d), D: d}
 		return []Val{PtrV{To: c, Nil: TFalse}}
 	}
+	// internal/pebble.Database implements database.Database: same model
+	const pb = "github.com/ava-labs/hypersdk/internal/pebble.(*Database)."
+	externs[pb+"Get"], externs[pb+"Has"], externs[pb+"Put"], externs[pb+"Delete"], externs[pb+"NewBatch"] = get, has, put, del, newBatch
 	externs[db+"Batcher.NewBatch"] = newBatch
 	externs[db+"Database.NewBatch"] = newBatch
 	externs[db+"Batch.Write"] = func(f *Frame, call *ast.CallExpr, recv Val, args []Val, st *State) []Val {
